@@ -1,11 +1,20 @@
 /-
 C08  All readers agree on the output of all writers.
 Property theorems over Model/Readers.lean (tag-level models of the five readers, the entity linker and the tag
-structure of the writers); helper lemmas live in Lemmas/Readers.lean; tables and probes regenerated from the source
-in Gen/ReaderTables.lean.  Every theorem below is stated for ALL files / entity lists / call sequences that meet
+structure of the writers) and, since session 3, Model/ReadersWrite.lean (Drawing.write, r12export), ReadersDetect.lean
+(version / encoding decisions, Binary DXF scan), ReadersLines.lean (bytes -> lines -> tags, file locations, exporter
+bytes), ReadersRepair.lean (recover's re-ordering filter), ReadersSniff.lean (readfile's sniffer), ReadersRecVer.lean
+(recover's version decision); helper lemmas live in Lemmas/Readers*.lean; tables, probes and statement orders
+regenerated from the source in Gen/ReaderTables.lean.  Every theorem below is stated for ALL files / entity lists / call sequences that meet
 the explicit decidable hypotheses; `Cfg` (what `factory.load` tells the readers about an entity) is arbitrary.
 -/
 import EzdxfVerif.Lemmas.Readers
+import EzdxfVerif.Lemmas.ReadersWrite
+import EzdxfVerif.Lemmas.ReadersDetect
+import EzdxfVerif.Lemmas.ReadersLines
+import EzdxfVerif.Lemmas.ReadersRepair
+import EzdxfVerif.Lemmas.ReadersSniff
+import EzdxfVerif.Lemmas.ReadersRecVer
 import EzdxfVerif.Gen.ReaderTables
 
 namespace EzdxfVerif.Props.C08
@@ -21,6 +30,13 @@ theorem gen_tables :
     2 ≤ ReaderTables.maxGroupCode ∧
     ReaderTables.managedSections.contains "ENTITIES" = true ∧
     (["POLYLINE", "INSERT", "VERTEX", "ATTRIB", "SEQEND"].all ReaderTables.supportedTypes.contains) = true := by
+  decide
+
+/-- the behaviour probes of the current source show the repaired readers (fix commits ec191f7e7, 58225a01d):
+    `single_pass_modelspace` delivers the last entity of the section and the iterdxf readers yield falsy entities.  The
+    theorems below that are stated for `singlePass cfg true` and the composition theorems describe THIS tree; if a
+    probe flips, this theorem fails and `single_pass_current` / the truthy filter say what holds instead. -/
+theorem gen_probes_fixed : ReaderTables.singlePassFlush = true ∧ ReaderTables.iterdxfYieldsFalsy = true := by
   decide
 
 /-! ## the entity linker: linking and flattening are inverse -/
@@ -311,6 +327,449 @@ theorem r12_iter (cfg : Cfg) (hr : ReqLinked cfg) (preface : List Section) (call
   rw [h1] at hA hC ⊢
   exact iter_ok cfg preface [] _ hp h2 h3 hr hA hC
 
+/-! ## Drawing.write: `writers_wf` proved, and the composition writer → every reader (session 3) -/
+
+/-- the order of the export statements of `Drawing.export_sections` and `EntitySection.export_dxf` in the CURRENT source
+    (regenerated from the AST) is the order `writeDoc` hard-codes -/
+theorem gen_export_order :
+    ReaderTables.exportOrder = exportOrderModel ∧ ReaderTables.entitySpaceOrder = entitySpaceOrderModel := by
+  decide
+
+/-- DESIGN C08 `writers_wf` for Drawing.write: for EVERY document content whose records are well-formed one by one
+    (`DocOK`: a condition per section body and per entity, no global condition) the tag stream emitted by
+    `Drawing.export_sections` satisfies the global predicate `FileWF'` all reader theorems start from. -/
+theorem writers_wf (cfg : Cfg) (m : Nat) (d : DocW) (h : DocOK cfg m d = true) :
+    FileWF' cfg m (writeDoc d) = true :=
+  writeDoc_wf cfg m d h
+
+/-- DESIGN C08 composition `write_then_read_agree`: on every file `Drawing.write` can produce, all five reader models
+    deliver the same list - the entities of the written entity spaces that are not flagged paperspace, in the order of
+    the document (iterdxf readers: of the requested types, falsy ones filtered when the tree does so). -/
+theorem write_then_read_agree (cfg : Cfg) (m : Nat) (hr : ReqLinked cfg) (d : DocW) (h : DocOK cfg m d = true) :
+    let expected := (d.msp ++ d.psp).filter (fun e => cfg.req (dxftype e.main) && !cfg.psp e.main)
+    iterModelspace cfg (writeDoc d) = .ok (expected.filter cfg.truthy) ∧
+    singlePass cfg true (writeDoc d) = .ok (expected.filter cfg.truthy) ∧
+    indexModelspace cfg m (writeDoc d) = .ok (expected.filter cfg.truthy) ∧
+    onlyReq cfg (strictModelspace cfg (writeDoc d)) = .ok expected ∧
+    onlyReq cfg (recoverModelspace cfg (writeDoc d)) = .ok expected := by
+  intro expected
+  have hwf := writeDoc_wf cfg m d h
+  have hspec : Spec.ofFile cfg (writeDoc d) = expected := spec_writeDoc cfg m d h
+  have hm : 2 ≤ m := (docFacts cfg m d h).m2
+  refine ⟨?_, ?_, ?_, ?_, ?_⟩
+  · rw [iter_agrees cfg m hr _ hwf, hspec]
+  · rw [single_pass_characterised cfg m hr true _ hwf, hspec]; rfl
+  · rw [index_agrees cfg m hm hr _ hwf, hspec]
+  · rw [strict_agrees cfg m _ hwf, hspec]
+  · rw [recover_agrees cfg m _ hwf, hspec]
+
+/-- with the paperspace flags as `set_owner` maintains them (clear in the modelspace, set in the active paperspace) the
+    common result is exactly the modelspace entity space of the document, restricted to the requested types -/
+theorem write_then_read_modelspace (cfg : Cfg) (d : DocW) (hfl : flagsOK cfg d = true) :
+    (d.msp ++ d.psp).filter (fun e => cfg.req (dxftype e.main) && !cfg.psp e.main)
+      = d.msp.filter (fun e => cfg.req (dxftype e.main)) := by
+  simp only [flagsOK, Bool.and_eq_true, List.all_eq_true, Bool.not_eq_true'] at hfl
+  rw [List.filter_append]
+  have h1 : d.msp.filter (fun e => cfg.req (dxftype e.main) && !cfg.psp e.main)
+      = d.msp.filter (fun e => cfg.req (dxftype e.main)) :=
+    List.filter_congr (fun e he => by simp [hfl.1 e he])
+  have h2 : d.psp.filter (fun e => cfg.req (dxftype e.main) && !cfg.psp e.main) = [] := by
+    rw [List.filter_eq_nil_iff]; intro e he; simp [hfl.2 e he]
+  rw [h1, h2, List.append_nil]
+
+/-- the handle level of C04/C05 composed with the readers: for EVERY document state `s` of Model/Doc.lean (reachable or
+    not), every frame and every content function `handle → record` that is locally well-formed, the five readers
+    deliver the records of exactly the handles `Doc.writeFile s` puts into the ENTITIES section, in that order,
+    minus the ones flagged paperspace. -/
+theorem state_write_read (cfg : Cfg) (m : Nat) (hr : ReqLinked cfg) (s : Doc.State) (frame : DocW) (content : Nat → Ent)
+    (h : DocOK cfg m (ofAbs frame content (Doc.writeFile s)) = true) :
+    let f := writeDoc (ofAbs frame content (Doc.writeFile s))
+    let expected := ((Doc.writeFile s).entities.map content).filter (fun e => cfg.req (dxftype e.main) && !cfg.psp e.main)
+    iterModelspace cfg f = .ok (expected.filter cfg.truthy) ∧
+    singlePass cfg true f = .ok (expected.filter cfg.truthy) ∧
+    indexModelspace cfg m f = .ok (expected.filter cfg.truthy) ∧
+    onlyReq cfg (strictModelspace cfg f) = .ok expected ∧
+    onlyReq cfg (recoverModelspace cfg f) = .ok expected := by
+  have := write_then_read_agree cfg m hr _ h
+  simpa [ofAbs] using this
+
+/-! ## format dispatch: which DXF version and text encoding each reader decides for the same file (session 3) -/
+
+/-- the file `Drawing.write` / the iterdxf exporter / r12export produce, seen from the header: HEADER section with the
+    variables `vars`, then well-formed sections none of which is called HEADER -/
+def SecsPlain (secs : List Section) : Prop := ∀ s ∈ secs, s.name ≠ "HEADER" ∧ bodyOK s.body = true
+
+/-- Same file → same (version, encoding) decision by `dxf_info` (ezdxf.readfile, iterdxf.modelspace), `fileindex.load`
+    (iterdxf.opendxf) and the header scan of `single_pass_modelspace`: for EVERY header written variable by variable
+    (`hvarOK` per variable, at most five occurrences of the five variables dxf_info counts - a dict has each once), any
+    code page table, any sections behind it.  The common value is the declarative `specInfo` (last `$ACADVER`, last
+    `$DWGCODEPAGE` through `toencoding`, utf-8 from AC1021 on). -/
+theorem detect_agree (tbl : List (String × String)) (vars : List HVar) (secs : List Section)
+    (hok : ∀ v ∈ vars, hvarOK v = true) (hcnt : (vars.filter (fun v => isCounted v.name)).length ≤ 5)
+    (hs : SecsPlain secs) :
+    dxfInfo tbl (headerFile vars (render secs)) = specInfo tbl vars ∧
+    indexInfo tbl (headerFile vars (render secs)) = specInfo tbl vars ∧
+    spInfo tbl (headerFile vars (render secs)) = specInfo tbl vars :=
+  ⟨dxfInfo_header tbl vars _ hok hcnt, indexInfo_header tbl vars secs hok hs, spInfo_header tbl vars _ hok⟩
+
+/-- recover's `detect_encoding` joins them when the header holds `$DWGCODEPAGE` (group code 3) and `$ACADVER` (group code
+    1, non-empty) exactly once each - whatever follows the header -/
+theorem detect_recover_agrees (tbl : List (String × String)) (vars : List HVar) (rest : List Tag)
+    (hok : ∀ v ∈ vars, hvarOK v = true ∧ recVarOK v = true)
+    (hu1 : (vars.filter (fun v => decide (v.name = "$DWGCODEPAGE"))).length = 1)
+    (hu2 : (vars.filter (fun v => decide (v.name = "$ACADVER"))).length = 1) :
+    recoverEnc tbl (headerFile vars rest) = (specInfo tbl vars).encoding :=
+  recoverEnc_header tbl vars rest hok hu1 hu2
+
+/-- composition with `writers_wf`: on every file `Drawing.write` produces from a locally well-formed document whose
+    HEADER holds the variables `vars`, all four ASCII readers take the same decision -/
+theorem detect_on_written_file (tbl : List (String × String)) (cfg : Cfg) (m : Nat) (d : DocW) (vars : List HVar)
+    (h : DocOK cfg m d = true) (hv : d.header = renderVars vars)
+    (hok : ∀ v ∈ vars, hvarOK v = true ∧ recVarOK v = true)
+    (hcnt : (vars.filter (fun v => isCounted v.name)).length ≤ 5)
+    (hu1 : (vars.filter (fun v => decide (v.name = "$DWGCODEPAGE"))).length = 1)
+    (hu2 : (vars.filter (fun v => decide (v.name = "$ACADVER"))).length = 1) :
+    dxfInfo tbl (writeDoc d) = specInfo tbl vars ∧ indexInfo tbl (writeDoc d) = specInfo tbl vars ∧
+    spInfo tbl (writeDoc d) = specInfo tbl vars ∧ recoverEnc tbl (writeDoc d) = (specInfo tbl vars).encoding := by
+  have hf := docFacts cfg m d h
+  have hexp : ∀ e ∈ d.msp ++ d.psp, e.exportable = true := fun e he => (wEnt_facts cfg m e (hf.ents e he)).2.2.1
+  have hsecs := secsOK_of cfg m _ hf.cfgok hf.secs
+  -- the sections behind HEADER
+  let tailSecs : List Section :=
+    ((if d.r12 then [] else [⟨"CLASSES", d.classes⟩]) ++ [⟨"TABLES", d.tables⟩, ⟨"BLOCKS", d.blocks⟩])
+      ++ ⟨"ENTITIES", flatEnts (d.msp ++ d.psp)⟩ :: d.post
+  have hfile : writeDoc d = headerFile vars (render tailSecs) := by
+    rw [writeDoc_eq d hexp, fileOf]
+    simp only [DocW.pre, List.cons_append, render, List.flatMap_cons, renderSec, hv, headerFile, tailSecs]
+    simp [List.append_assoc]
+  have hplain : SecsPlain tailSecs := by
+    intro s hs
+    simp only [tailSecs, List.mem_append, List.mem_cons] at hs
+    rcases hs with (hs | hs) | rfl | hs
+    · have hmem : s ∈ d.pre ++ d.post := by
+        simp only [DocW.pre, List.mem_append, List.mem_cons]; exact Or.inl (Or.inr (Or.inl hs))
+      refine ⟨?_, hsecs.body s hmem⟩
+      cases hr : d.r12 <;> simp [hr] at hs <;> subst hs <;> simp
+    · have hmem : s ∈ d.pre ++ d.post := by
+        simp only [DocW.pre, List.mem_append, List.mem_cons]; exact Or.inl (Or.inr (Or.inr hs))
+      refine ⟨?_, hsecs.body s hmem⟩
+      simp only [List.mem_cons, List.not_mem_nil, or_false] at hs
+      rcases hs with rfl | rfl <;> simp
+    · exact ⟨by simp, bodyOK_flatEnts _ (docEnts_groups cfg m d hf)⟩
+    · have hmem : s ∈ d.pre ++ d.post := by simp [hs]
+      refine ⟨?_, hsecs.body s hmem⟩
+      simp only [DocW.post, List.mem_append] at hs
+      rcases hs with hs | hs | hs
+      · cases hr : d.r12 <;> simp [hr] at hs
+        subst hs; simp
+      · cases ha : d.acds with
+        | none => simp [ha] at hs
+        | some a => simp [ha] at hs; subst hs; simp
+      · exact hf.stored s hs
+  rw [hfile]
+  have hok1 : ∀ v ∈ vars, hvarOK v = true := fun v hv => (hok v hv).1
+  exact ⟨dxfInfo_header tbl vars _ hok1 hcnt, indexInfo_header tbl vars tailSecs hok1 hplain, spInfo_header tbl vars _ hok1,
+    recoverEnc_header tbl vars _ hok hu1 hu2⟩
+
+/-- recover decides the DXF version on its own (`_detect_dxf_version`: the first `$ACADVER` of the merged HEADER section
+    plus rescued orphans, stripped, accepted only as `AC` + four digits): on every well-formed file whose header holds
+    `$ACADVER` at most once, as an unpadded `ACnnnn`, it is the version every other reader decides -/
+theorem recover_version_agrees (tbl : List (String × String)) (cfg : Cfg) (vars : List HVar) (secs : List Section)
+    (hok : ∀ v ∈ vars, hvarOK v = true ∧ verVarOK cfg.strip v = true)
+    (hu : (vars.filter (fun v => decide (v.name = "$ACADVER"))).length ≤ 1)
+    (hs : SecsPlain secs)
+    (hA : asciiLoad (headerFile vars (render secs)) = headerFile vars (render secs))
+    (hC : compileB cfg (headerFile vars (render secs)) = headerFile vars (render secs)) :
+    recoverVersion cfg (headerFile vars (render secs)) = (specInfo tbl vars).version := by
+  have hfile : headerFile vars (render secs) = render (⟨"HEADER", renderVars vars⟩ :: secs) := by
+    simp [headerFile, render, renderSec]
+  have hbody : bodyOK (renderVars vars) = true := by
+    simp only [bodyOK, List.all_eq_true]
+    intro t ht
+    simp only [renderVars, List.mem_flatMap, HVar.tags, List.mem_cons] at ht
+    obtain ⟨v, hv, rfl | ht⟩ := ht
+    · simp
+    · obtain ⟨x, xs, hval, hcodes, _⟩ := hvar_value v (hok v hv).1
+      rw [hval] at ht
+      have := (hcodes t ht).1
+      simp [this]
+  rw [hfile] at hA hC ⊢
+  unfold recoverVersion
+  rw [recoverHeader_file cfg (renderVars vars) secs hbody hs hA hC]
+  have h1 : recVersionLoop cfg.strip (tSECTION :: ⟨2, "HEADER"⟩ :: renderVars vars) false
+      = recVersionLoop cfg.strip (renderVars vars ++ []) false := by
+    simp [recVersionLoop, tSECTION]
+  rw [h1, recVersion_vars cfg.strip vars [] hok]
+  have h2 := specFold_version tbl vars Info.default hu
+  have h3 : recVersionLoop cfg.strip [] false = Info.default.version := rfl
+  rw [h3, ← h2]
+  simp only [specInfo, Info.final]
+  split <;> rfl
+
+/-- where recover's version decision differs (files no writer produces): a padded or lower-case version text is
+    stripped by recover but compared as it is by `dxf_info`; a text that is not `AC` + four digits makes recover fall back
+    to R12 while the other readers keep it -/
+theorem recover_version_differs :
+    recVersionLoop (fun s => if s = " AC1032 " then "AC1032" else s) [tSECTION, ⟨2, "HEADER"⟩, ⟨9, "$ACADVER"⟩, ⟨1, " AC1032 "⟩] false = "AC1032" ∧
+    (dxfInfo ReaderTables.codepageTable (headerFile [⟨"$ACADVER", [⟨1, " AC1032 "⟩]⟩] [tEOF])).version = " AC1032 " ∧
+    recVersionLoop id [tSECTION, ⟨2, "HEADER"⟩, ⟨9, "$ACADVER"⟩, ⟨1, "AC10321"⟩] false = "AC1009" ∧
+    (dxfInfo ReaderTables.codepageTable (headerFile [⟨"$ACADVER", [⟨1, "AC10321"⟩]⟩] [tEOF])).version = "AC10321" := by
+  decide
+
+/-- where the readers genuinely differ (files no ezdxf writer produces): (1) a R2018 header WITHOUT `$DWGCODEPAGE`:
+    recover decodes as cp1252, every other reader as utf-8; (2) six counted variables (a duplicate) in front of
+    `$DWGCODEPAGE`: `dxf_info` stops after five and keeps cp1252, `fileindex.load` reads on; (3) a comment between the
+    name and its value: the text-mode loaders skip it, the binary-mode loaders take it for the value -/
+theorem detect_differs :
+    (let f := headerFile [⟨"$ACADVER", [⟨1, "AC1032"⟩]⟩] [tEOF]
+     recoverEnc ReaderTables.codepageTable f = "cp1252" ∧ (dxfInfo ReaderTables.codepageTable f).encoding = "utf-8") ∧
+    (let f := headerFile [⟨"$ACADVER", [⟨1, "AC1015"⟩]⟩, ⟨"$HANDSEED", [⟨5, "A"⟩]⟩, ⟨"$HANDSEED", [⟨5, "B"⟩]⟩, ⟨"$INSUNITS", [⟨70, "6"⟩]⟩,
+        ⟨"$INSBASE", [⟨10, "0"⟩, ⟨20, "0"⟩, ⟨30, "0"⟩]⟩, ⟨"$DWGCODEPAGE", [⟨3, "ANSI_1251"⟩]⟩] [tEOF]
+     (dxfInfo ReaderTables.codepageTable f).encoding = "cp1252" ∧ (indexInfo ReaderTables.codepageTable f).encoding = "cp1251") ∧
+    (let f := tSECTION :: ⟨2, "HEADER"⟩ :: ⟨9, "$DWGCODEPAGE"⟩ :: ⟨999, "note"⟩ :: ⟨3, "ANSI_1251"⟩ :: [tENDSEC, tEOF]
+     (dxfInfo ReaderTables.codepageTable f).encoding = "cp1251" ∧ (spInfo ReaderTables.codepageTable f).encoding = "cp1252") := by
+  decide
+
+/-- Binary DXF, `scan_params`: the current source reads the `$DWGCODEPAGE` value up to its zero byte (regenerated probe) -/
+theorem gen_bin_scan_full : ReaderTables.binScanFull = true := by decide
+
+/-- ... so for EVERY data that continues behind the `$DWGCODEPAGE` name with its value tag (1- or 2-byte group code, a code
+    page name of ≥ 5 characters starting with `A`, without zero byte: `ANSI_932` as well as `ANSI_1252`), the scan
+    returns `toencoding(name)` -/
+theorem bin_scan_codepage (tbl : List (String × String)) (r12 : Bool) (pre rest : List Nat) (cp : String) (tl : List Char)
+    (hA : cp.toList = 'A' :: tl) (h5 : 5 ≤ cp.length) (h0 : ∀ c ∈ cp.toList, c.toNat ≠ 0) :
+    scanCodepage tbl ReaderTables.binScanFull (pre ++ bytesOf "$DWGCODEPAGE" ++ [0] ++ binTag r12 3 cp ++ rest) pre.length
+      = some (toEncoding tbl cp) := by
+  rw [gen_bin_scan_full]
+  exact scanCodepage_full tbl r12 pre rest cp tl hA h5 h0
+
+/-- a fixed 9-byte slice instead (`data[start : start + 9]`) misses every 3-digit code page: the zero byte becomes part
+    of the name and `toencoding` falls back to cp1252 -/
+theorem bin_fixed_slice_misses_3_digit :
+    findSub (bytesOf "$DWGCODEPAGE") (binHeader true "AC1009" [] "ANSI_932" [1, 120, 0]) 22 1024 = some 58 ∧
+    scanCodepage ReaderTables.codepageTable false (binHeader true "AC1009" [] "ANSI_932" [1, 120, 0]) 58 = some "cp1252" ∧
+    scanCodepage ReaderTables.codepageTable true (binHeader true "AC1009" [] "ANSI_932" [1, 120, 0]) 58 = some "cp932" ∧
+    binScan ReaderTables.codepageTable true (binHeader false "AC1018" [] "ANSI_936" [1, 0, 120, 0]) = some ⟨"AC1018", "gbk"⟩ := by
+  decide
+
+/-! ## the line level: how the byte stream becomes tags (session 3) -/
+
+/-- DESIGN C08 line level: the five line splitters of the readers - text mode with universal newlines
+    (ascii_tags_loader: ezdxf.readfile, iterdxf.modelspace), binary `readline()` + `rstrip(b"\r\n")` (fileindex.load;
+    recover's bytes_loader with its `_search_int` fallback), iterdxf `binary_tagger`, and `replace("\r\n", "\n")` + `split("\n")` of `IterDXF.load_entities`
+    - return exactly the written tags, for EVERY tag list (values of any length without line break characters, group
+    codes 0‥1071) and EVERY choice of `\n` or `\r\n` per tag (Unix, Windows and the mixed files of the iterdxf
+    exporter).  No reader reads in blocks, so there is no buffer boundary an entity could span. -/
+theorem lines_agree (ts : List (RawTag × Bool)) (h : tagsClean ts) :
+    tagsText (renderLines ts) = .ok (rawTags ts) ∧ tagsBin (renderLines ts) = .ok (rawTags ts) ∧
+    tagsBytesLoader (renderLines ts) = .ok (rawTags ts) ∧
+    tagsBinTagger (renderLines ts) = .ok (rawTags ts) ∧ tagsChunk (renderLines ts) = .ok (rawTags ts) :=
+  lines_agree_all ts h
+
+/-- the offset arithmetic of `opendxf()`: for every file `a ++ g ++ b` (any tags in front, the tags of one entity, any
+    tags behind; LF / CRLF per tag) the chunk `IterDXF.load_entities` reads - from the fileindex location of the entity's
+    first tag to the location of the next indexed tag - is exactly the rendering of the entity, and it compiles back to
+    the entity's tags: no byte of a neighbour, none of its own missing, whatever the lengths -/
+theorem index_chunk_is_entity (a g b : List (RawTag × Bool)) (hg : tagsClean g) :
+    readChunk (renderLines (a ++ g ++ b)) (locationOf (a ++ g ++ b) a.length) (locationOf (a ++ g ++ b) (a.length + g.length))
+      = renderLines g ∧
+    tagsChunk (readChunk (renderLines (a ++ g ++ b)) (locationOf (a ++ g ++ b) a.length)
+      (locationOf (a ++ g ++ b) (a.length + g.length))) = .ok (rawTags g) :=
+  chunk_is_group a g b hg
+
+/-- the iterdxf exporter at BYTE level (`IterDXF.export` + `IterDXFWriter.write`* + `close`), for every source file
+    `a ++ m ++ o ++ z` (`a`: all tags in front of the first entity, `o`: the OBJECTS section; any line ends) and every
+    list of written entity tags: the exported bytes are the rendering of `a` (copied), the written tags with `\n`, ENDSEC
+    with `\r\n`, `o` (copied) and EOF with `\r\n` - a file with mixed line ends - and every line splitter reads exactly
+    these tags back; together with `export_structure` (tag level) and `index_chunk_is_entity` this closes the exporter
+    from bytes to bytes -/
+theorem export_bytes (a m o z : List (RawTag × Bool)) (written : List RawTag)
+    (ha : tagsClean a) (ho : tagsClean o) (hw : ∀ t ∈ written, t.code ≤ 1071 ∧ valOK t.val = true) :
+    let out := exportBytes (a ++ m ++ o ++ z) a.length written (some ((a ++ m).length, o.length))
+    let expected := rawTags a ++ written ++ [⟨0, [69, 78, 68, 83, 69, 67]⟩] ++ rawTags o ++ [⟨0, [69, 79, 70]⟩]
+    tagsText out = .ok expected ∧ tagsBin out = .ok expected ∧ tagsBytesLoader out = .ok expected ∧
+    tagsBinTagger out = .ok expected ∧ tagsChunk out = .ok expected := by
+  intro out expected
+  have hclean : tagsClean (a ++ written.map (fun t => (t, false)) ++ [(⟨0, [69, 78, 68, 83, 69, 67]⟩, true)] ++ o
+      ++ [(⟨0, [69, 79, 70]⟩, true)]) := by
+    apply tagsClean_append
+    · apply tagsClean_append
+      · apply tagsClean_append
+        · apply tagsClean_append _ _ ha
+          intro p hp
+          obtain ⟨t, ht, rfl⟩ := List.mem_map.mp hp
+          exact hw t ht
+        · intro p hp; simp only [List.mem_singleton] at hp; subst hp; decide
+      · exact ho
+    · intro p hp; simp only [List.mem_singleton] at hp; subst hp; decide
+  have hraw : rawTags (a ++ written.map (fun t => (t, false)) ++ [(⟨0, [69, 78, 68, 83, 69, 67]⟩, true)] ++ o
+      ++ [(⟨0, [69, 79, 70]⟩, true)]) = expected := by
+    simp [rawTags, expected, List.map_append, Function.comp_def]
+  have := lines_agree_all _ hclean
+  rw [hraw, ← exportBytes_eq a m o z written] at this
+  exact this
+
+/-- the written group code line `"%3d"` is read back by `int()`, with and without a trailing CR, for every group code
+    0‥1071 (exhaustive) -/
+theorem code_lines_roundtrip : (List.range 1072).all fmtOK = true := fmtOK_all
+
+/-- where the line splitters genuinely differ (no writer emits such values): a lone CR inside a value ends the line for
+    the text-mode readers (the stream loses its code/value rhythm: DXFStructureError) and is kept by the binary-mode
+    ones; a value that ends with CR in a CRLF file is cut by `rstrip(b"\r\n")` and kept by the chunk reader -/
+theorem lone_cr_differs :
+    tagsText [49, 10, 65, 13, 66, 10] = .error .invalidGroupCode ∧
+    tagsBin [49, 10, 65, 13, 66, 10] = .ok [⟨1, [65, 13, 66]⟩] ∧
+    tagsBin [49, 13, 10, 65, 13, 13, 10] = .ok [⟨1, [65]⟩] ∧
+    tagsChunk [49, 13, 10, 65, 13, 13, 10] = .ok [⟨1, [65, 13]⟩] := by
+  decide
+
+/-! ## recover's repair filter in front of the tag compiler (session 3) -/
+
+/-- the entity types (and their point codes) recover's `tag_reorder_layer` re-orders, regenerated from
+    `COORDINATE_FIXING_TOOLBOX`: only LINE, start and end point -/
+theorem gen_reorder_toolbox : ReaderTables.coordinateFixing = [("LINE", [10, 11])] := by decide
+
+/-- `fix_coordinate_order` is the identity on every entity whose coordinate tags stand in one run in canonical order
+    (x, y, z of the first point, then of the second, ...; any of them may be missing), whatever surrounds the run -/
+theorem fix_coordinate_order_identity (codes : List Nat) (pre mid post : List Tag) (hnd : (coordCodes codes).Nodup)
+    (h : CanonCoords codes pre mid post) :
+    fixCoordinateOrder codes (pre ++ mid ++ post) = pre ++ mid ++ post :=
+  fix_identity codes pre mid post hnd h
+
+/-- ... hence `tag_reorder_layer` (which only recover.read / readfile apply) is the identity on every stream of entities
+    whose toolbox entities are written canonically and that ends with a non-toolbox group (EOF): recover and the other
+    readers compile the same tags -/
+theorem reorder_identity_on_canonical (toolbox : List (String × List Nat)) (gs : List Group) (last : Group)
+    (hg : ∀ g ∈ gs ++ [last], groupOK g = true) (hcan : ∀ g ∈ gs, GroupCanon toolbox g)
+    (hlast : inToolbox toolbox last = false) :
+    tagReorderLayer toolbox (gs ++ [last]).flatten = (gs ++ [last]).flatten :=
+  reorder_layer_identity toolbox gs last hg hcan hlast
+
+/-- why the toolbox must stay as small as it is: with DIMENSION (codes 10‥16) in it, the definition points 13/14 of a
+    DXF R2000 DIMENSION move in front of the second subclass marker, where the loader does not look for them; and a
+    legacy LINE (x1, x2, y1, y2) is repaired as intended -/
+theorem reorder_moves_split_coordinates :
+    reorderGroup [("LINE", [10, 11]), ("DIMENSION", [10, 11, 12, 13, 14, 15, 16])]
+      [⟨0, "DIMENSION"⟩, ⟨100, "AcDbDimension"⟩, ⟨10, "1"⟩, ⟨20, "2"⟩, ⟨100, "AcDbAlignedDimension"⟩, ⟨13, "3"⟩, ⟨23, "4"⟩]
+      = [⟨0, "DIMENSION"⟩, ⟨100, "AcDbDimension"⟩, ⟨10, "1"⟩, ⟨20, "2"⟩, ⟨13, "3"⟩, ⟨23, "4"⟩, ⟨100, "AcDbAlignedDimension"⟩] ∧
+    reorderGroup ReaderTables.coordinateFixing
+      [⟨0, "DIMENSION"⟩, ⟨100, "AcDbDimension"⟩, ⟨10, "1"⟩, ⟨20, "2"⟩, ⟨100, "AcDbAlignedDimension"⟩, ⟨13, "3"⟩, ⟨23, "4"⟩]
+      = [⟨0, "DIMENSION"⟩, ⟨100, "AcDbDimension"⟩, ⟨10, "1"⟩, ⟨20, "2"⟩, ⟨100, "AcDbAlignedDimension"⟩, ⟨13, "3"⟩, ⟨23, "4"⟩] ∧
+    reorderGroup ReaderTables.coordinateFixing [⟨0, "LINE"⟩, ⟨8, "0"⟩, ⟨10, "1"⟩, ⟨11, "4"⟩, ⟨20, "2"⟩, ⟨21, "5"⟩]
+      = [⟨0, "LINE"⟩, ⟨8, "0"⟩, ⟨10, "1"⟩, ⟨20, "2"⟩, ⟨11, "4"⟩, ⟨21, "5"⟩] := by
+  decide
+
+/-- no reader strips a UTF-8 byte order mark (no writer emits one): `int()` rejects the first group code line in text
+    and in binary mode; only recover's `bytes_loader` reads past it, through its `_search_int` fallback -/
+theorem bom_differs :
+    tagsText ([239, 187, 191] ++ renderLines [(⟨0, [69, 79, 70]⟩, false)]) = .error .invalidGroupCode ∧
+    tagsBin ([239, 187, 191] ++ renderLines [(⟨0, [69, 79, 70]⟩, false)]) = .error .invalidGroupCode ∧
+    tagsBytesLoader ([239, 187, 191] ++ renderLines [(⟨0, [69, 79, 70]⟩, false)]) = .ok [⟨0, [69, 79, 70]⟩] := by
+  decide
+
+/-! ## sniffing in front of `ezdxf.readfile`, and the levels composed (session 3) -/
+
+/-- every file that satisfies `FileWF'` - in particular (`writers_wf`) every file `Drawing.write` produces - starts with
+    `(0, SECTION)` and is accepted by the sniffer `is_dxf_stream` of `ezdxf.readfile`, which therefore behaves like
+    `ezdxf.read` on it (no `IOError: not a DXF file`) -/
+theorem readfile_accepts_wf (cfg : Cfg) (m : Nat) (f : List Tag) (h : FileWF' cfg m f = true) :
+    strictFileModelspace cfg f = some (strictModelspace cfg f) := by
+  simp [strictFileModelspace, wf_isDxfStream cfg m f h]
+
+/-- what the ASCII tag writer emits never starts with the Binary DXF sentinel: `is_binary_dxf_file` is False, the file is
+    routed to the ASCII loader -/
+theorem ascii_never_binary (ts : List (RawTag × Bool)) (h : tagsClean ts) : isBinaryFile (renderLines ts) = false :=
+  ascii_not_binary ts h
+
+/-- the sniffer is a real restriction of `ezdxf.readfile` compared with `ezdxf.read` / recover / iterdxf (which do not
+    sniff): a group code > 999 in front of the first SECTION makes `readfile` raise IOError -/
+theorem sniffer_rejects :
+    isDxfStream [⟨1000, "x"⟩, tSECTION, ⟨2, "ENTITIES"⟩, tENDSEC, tEOF] = false ∧
+    isDxfStream [⟨999, "comment"⟩, ⟨5, "x"⟩, tSECTION, ⟨2, "ENTITIES"⟩, tENDSEC, tEOF] = true ∧
+    isDxfStream [⟨0, " SECTION"⟩, ⟨2, "ENTITIES"⟩, tENDSEC, tEOF] = false := by
+  decide
+
+/-- the levels composed for `Drawing.write`: for every locally well-formed document, every encoding `enc` of the values
+    that produces no line break bytes and every choice of LF / CRLF per tag, the five line splitters turn the bytes on
+    disk back into exactly the (encoded) tags of `writeDoc d` - on which `write_then_read_agree` and
+    `detect_on_written_file` then speak -/
+theorem written_bytes_to_tags (cfg : Cfg) (d : DocW) (h : DocOK cfg 1071 d) (enc : String → Bytes)
+    (fs : List (Tag × Bool)) (hfs : fs.map (·.1) = writeDoc d)
+    (henc : ∀ t ∈ writeDoc d, valOK (enc t.val) = true) :
+    let raw : List (RawTag × Bool) := fs.map (fun p => (⟨p.1.code, enc p.1.val⟩, p.2))
+    let expected : List RawTag := (writeDoc d).map (fun t => ⟨t.code, enc t.val⟩)
+    tagsText (renderLines raw) = .ok expected ∧ tagsBin (renderLines raw) = .ok expected ∧
+    tagsBytesLoader (renderLines raw) = .ok expected ∧ tagsBinTagger (renderLines raw) = .ok expected ∧
+    tagsChunk (renderLines raw) = .ok expected := by
+  intro raw expected
+  have hwf := writeDoc_wf cfg 1071 d h
+  obtain ⟨secs, pre, es, post, b⟩ := wf_bridge cfg 1071 _ hwf
+  -- every group code of the file is ≤ 1071
+  have hcodes : ∀ t ∈ writeDoc d, t.code ≤ 1071 := by
+    intro t ht
+    rw [b.file] at ht
+    rcases mem_fileOf pre post es t ht with ⟨s, hs, h⟩ | h | rfl | rfl | rfl | rfl
+    · have hso : idxSecOK 1071 s := by
+        rcases List.mem_append.mp hs with hs | hs
+        · exact b.pre_ok s hs
+        · exact b.post_ok s hs
+      simp only [renderSec, List.mem_cons, List.mem_append, List.not_mem_nil, or_false] at h
+      rcases h with rfl | rfl | h | rfl
+      · decide
+      · show (2 : Nat) ≤ 1071; decide
+      · exact hso.2.1 t h
+      · decide
+    · simp only [flatEnts, List.mem_flatten] at h
+      obtain ⟨g, hg, htg⟩ := h
+      exact b.codes g hg t htg
+    · decide
+    · decide
+    · decide
+    · decide
+  have hclean : tagsClean raw := by
+    intro p hp
+    simp only [raw, List.mem_map] at hp
+    obtain ⟨q, hq, rfl⟩ := hp
+    have hmem : q.1 ∈ writeDoc d := by rw [← hfs]; exact List.mem_map.mpr ⟨q, hq, rfl⟩
+    exact ⟨hcodes _ hmem, henc _ hmem⟩
+  have hraw : rawTags raw = expected := by
+    simp only [rawTags, raw, expected, ← hfs, List.map_map]
+    rfl
+  have := lines_agree_all raw hclean
+  rw [hraw] at this
+  exact this
+
+/-! ## r12export: the third document writer (session 3) -/
+
+/-- the order in which `R12Exporter.to_string` joins its parts and `export_layouts_to_string` writes the ENTITIES section,
+    regenerated from the AST, is the order `r12exportFile` hard-codes -/
+theorem gen_r12export_order :
+    ReaderTables.r12exportOrder = r12exportOrderModel ∧ ReaderTables.r12exportLayouts = r12exportLayoutsModel := by
+  decide
+
+/-- the file r12export assembles is the file the R12 branch of `Drawing.export_sections` writes for the converted
+    content - so `writers_wf`, `write_then_read_agree`, `detect_on_written_file` and `written_bytes_to_tags` hold for
+    r12export as they stand -/
+theorem r12export_structure (header tables blocks : List Tag) (msp psp : List Ent) :
+    r12exportFile header tables blocks msp psp = writeDoc (r12exportDoc header tables blocks msp psp) := by
+  simp [r12exportFile, writeDoc, r12exportDoc, List.append_assoc]
+
+/-- all five readers agree on every r12export file whose converted records are locally well-formed -/
+theorem r12export_read_agree (cfg : Cfg) (m : Nat) (hr : ReqLinked cfg) (header tables blocks : List Tag) (msp psp : List Ent)
+    (h : DocOK cfg m (r12exportDoc header tables blocks msp psp) = true) :
+    let f := r12exportFile header tables blocks msp psp
+    let expected := (msp ++ psp).filter (fun e => cfg.req (dxftype e.main) && !cfg.psp e.main)
+    FileWF' cfg m f = true ∧
+    iterModelspace cfg f = .ok (expected.filter cfg.truthy) ∧
+    singlePass cfg true f = .ok (expected.filter cfg.truthy) ∧
+    indexModelspace cfg m f = .ok (expected.filter cfg.truthy) ∧
+    onlyReq cfg (strictModelspace cfg f) = .ok expected ∧
+    onlyReq cfg (recoverModelspace cfg f) = .ok expected := by
+  intro f expected
+  have hf : f = writeDoc (r12exportDoc header tables blocks msp psp) := r12export_structure header tables blocks msp psp
+  rw [hf]
+  exact ⟨writeDoc_wf cfg m _ h, write_then_read_agree cfg m hr _ h⟩
+
 /-! ## JSON tags -/
 
 private theorem asciiLoad_prefix (a b : List Tag) (h : ∀ t ∈ a, t.code ≠ 999 ∧ t ≠ tEOF) :
@@ -425,5 +884,63 @@ def sampleFile : List Tag :=
 #guard polyEnt.exportable && (Spec.linked cfgS sampleFile).all Ent.exportable
 
 example : ReqLinked cfgS := ⟨rfl, rfl, rfl, rfl, rfl⟩
+
+/-- a document content: R2000, two modelspace entities (a POLYLINE with vertex + SEQEND, an INSERT with ATTRIB), one
+    paperspace LINE (flag 67), a stored THUMBNAILIMAGE section -/
+def sampleDoc : DocW where
+  r12 := false
+  header := [⟨9, "$ACADVER"⟩, ⟨1, "AC1015"⟩, ⟨9, "$HANDSEED"⟩, ⟨5, "FF"⟩]
+  classes := []
+  tables := [⟨0, "TABLE"⟩, ⟨2, "LAYER"⟩, ⟨0, "ENDTAB"⟩]
+  blocks := []
+  objects := [⟨0, "DICTIONARY"⟩, ⟨5, "C"⟩]
+  acds := none
+  stored := [⟨"THUMBNAILIMAGE", [⟨90, "1"⟩]⟩]
+  msp := [polyEnt, ⟨[⟨0, "INSERT"⟩, ⟨5, "F"⟩, ⟨66, "1"⟩], [[⟨0, "ATTRIB"⟩, ⟨5, "10"⟩]], some [⟨0, "SEQEND"⟩, ⟨5, "11"⟩]⟩]
+  psp := [Ent.single [⟨0, "LINE"⟩, ⟨5, "20"⟩, ⟨67, "1"⟩]]
+
+/-- `cfgS` with the paperspace flag read from group code 67 -/
+def cfgP : Cfg := { cfgS with psp := fun g => g.any (fun t => t.code == 67 && t.val == "1"),
+                              pspS := fun g => g.any (fun t => t.code == 67 && t.val == "1") }
+
+#guard DocOK cfgP 1071 sampleDoc && flagsOK cfgP sampleDoc
+#guard FileWF' cfgP 1071 (writeDoc sampleDoc)
+#guard iterModelspace cfgP (writeDoc sampleDoc) == .ok sampleDoc.msp
+#guard onlyReq cfgP (recoverModelspace cfgP (writeDoc sampleDoc)) == .ok sampleDoc.msp
+#guard !DocOK cfgP 1071 { sampleDoc with msp := [{ polyEnt with seqend := none }] }      -- POLYLINE without SEQEND
+#guard !DocOK cfgP 1071 { sampleDoc with tables := [⟨0, "ENDSEC"⟩] }                     -- a body that closes the section
+#guard !DocOK cfgP 1071 { sampleDoc with r12 := true }
+
+/-- a header as ezdxf writes it -/
+def sampleVars : List HVar :=
+  [⟨"$ACADVER", [⟨1, "AC1018"⟩]⟩, ⟨"$ACADMAINTVER", [⟨70, "6"⟩]⟩, ⟨"$DWGCODEPAGE", [⟨3, "ANSI_932"⟩]⟩,
+   ⟨"$INSBASE", [⟨10, "0.0"⟩, ⟨20, "0.0"⟩, ⟨30, "0.0"⟩]⟩, ⟨"$EXTMIN", [⟨10, "1"⟩, ⟨20, "2"⟩]⟩, ⟨"$HANDSEED", [⟨5, "FF"⟩]⟩,
+   ⟨"$INSUNITS", [⟨70, "6"⟩]⟩]
+
+#guard sampleVars.all (fun v => hvarOK v && recVarOK v)
+#guard (sampleVars.filter (fun v => isCounted v.name)).length == 5
+#guard specInfo ReaderTables.codepageTable sampleVars == ⟨"AC1018", "cp932"⟩
+#guard dxfInfo ReaderTables.codepageTable (headerFile sampleVars [tEOF]) == ⟨"AC1018", "cp932"⟩
+#guard recoverEnc ReaderTables.codepageTable (headerFile sampleVars [tEOF]) == "cp932"
+#guard specInfo ReaderTables.codepageTable [⟨"$ACADVER", [⟨1, "AC1021"⟩]⟩, ⟨"$DWGCODEPAGE", [⟨3, "ANSI_1251"⟩]⟩] == ⟨"AC1021", "utf-8"⟩
+example : tagsClean [(⟨0, [83, 69, 67, 84, 73, 79, 78]⟩, true), (⟨10, [49, 46, 48]⟩, false), (⟨1071, []⟩, true)] := by
+  intro p hp; simp only [List.mem_cons, List.not_mem_nil, or_false] at hp; rcases hp with rfl | rfl | rfl <;> decide
+#guard tagsText (renderLines [(⟨0, [83]⟩, true), (⟨1, List.replicate 5000 120⟩, false)]) == .ok [⟨0, [83]⟩, ⟨1, List.replicate 5000 120⟩]
+/-- a LINE as ezdxf writes it: thickness, start, end, extrusion -/
+example : GroupCanon ReaderTables.coordinateFixing
+    [⟨0, "LINE"⟩, ⟨5, "A"⟩, ⟨8, "0"⟩, ⟨39, "1"⟩, ⟨10, "1"⟩, ⟨20, "2"⟩, ⟨30, "0"⟩, ⟨11, "4"⟩, ⟨21, "5"⟩, ⟨31, "0"⟩, ⟨210, "0"⟩] := by
+  intro codes hc
+  have : codes = [10, 11] := by simpa [toolboxCodes, ReaderTables.coordinateFixing, dxftype] using hc.symm
+  subst this
+  refine ⟨by decide, [⟨0, "LINE"⟩, ⟨5, "A"⟩, ⟨8, "0"⟩, ⟨39, "1"⟩],
+    [⟨10, "1"⟩, ⟨20, "2"⟩, ⟨30, "0"⟩, ⟨11, "4"⟩, ⟨21, "5"⟩, ⟨31, "0"⟩], [⟨210, "0"⟩], rfl, by decide, ?_⟩
+  exact List.Sublist.refl _
+#guard tagReorderLayer ReaderTables.coordinateFixing (writeDoc sampleDoc) == writeDoc sampleDoc
+#guard tagReorderLayer ReaderTables.coordinateFixing [⟨0, "LINE"⟩, ⟨8, "0"⟩, ⟨10, "1"⟩, ⟨11, "4"⟩, ⟨20, "2"⟩, ⟨21, "5"⟩, tEOF]
+  == [⟨0, "LINE"⟩, ⟨8, "0"⟩, ⟨10, "1"⟩, ⟨20, "2"⟩, ⟨11, "4"⟩, ⟨21, "5"⟩, tEOF]
+#guard tagReorderLayer ReaderTables.coordinateFixing [⟨0, "LINE"⟩, ⟨10, "1"⟩] == []      -- never released without a next structure tag
+#guard sampleVars.all (verVarOK id) && isAcVersion "AC1018" && !isAcVersion "AC101" && !isAcVersion "ac1018"
+#guard recoverVersion cfgS (headerFile sampleVars (render [⟨"ENTITIES", []⟩])) == "AC1018"
+#guard !hvarOK ⟨"$ACADVER", []⟩ && !hvarOK ⟨"$X", [⟨10, "1"⟩]⟩ && !hvarOK ⟨"$Y", [⟨1, "a"⟩, ⟨9, "$Z"⟩]⟩                                    -- $ACADVER newer than the writer's switch
 
 end EzdxfVerif.Props.C08
